@@ -372,9 +372,9 @@ def resolveImports(sheet, target=None):
                         for r in importedSheet:
                             # check if rules present which may not be
                             # combined with media
+                            # (a kept nested @import may not be put in @media)
                             if r.type not in (r.COMMENT,
-                                              r.STYLE_RULE,
-                                              r.IMPORT_RULE):
+                                              r.STYLE_RULE):
                                 keepimport = True
                                 break
                         if keepimport:
